@@ -34,21 +34,29 @@ DsEnabled(n) ==
     /\ IF commits[n].baseEpoch = 0 THEN TRUE ELSE winner[commits[n].baseEpoch - 1] = commits[n].baseKs
     /\ grp[commits[n].by].st = "member" /\ grp[commits[n].by].pend = n
 
-ProgressEnabled ==
-    \/ \E n \in 1..Len(commits) : DsEnabled(n)
-    \/ \E p \in Parties : HasGroup(p) /\ grp[p].pend # 0 /\ IsWinner(grp[p].pend)
-    \/ \E q \in Parties : HasGroup(q) /\ \E n \in CurrentWinnerFor(q) : commits[n].by # q /\ n \notin grp[q].seenC
-    \/ \E q \in Parties : ~HasGroup(q) /\ \E n \in 1..Len(commits) : IsWinner(n) /\
-            \E i \in 1..Len(commits[n].added) : kps[commits[n].added[i][1]].owner = q /\ ~kps[commits[n].added[i][1]].used
-    \/ \E q \in Parties : HasGroup(q) /\ \E j \in 1..Len(props) : props[j].ks = grp[q].ks /\ props[j].by # q /\ j \notin grp[q].cache
+\* enabled progress steps (guards only: cheap), one of which is drawn at random
+ProgChoices ==
+    {[t |-> "ds", p |-> "", n |-> n] : n \in {n \in 1..Len(commits) : DsEnabled(n)}}
+    \cup {[t |-> "apply", p |-> p, n |-> 0] : p \in {p \in Parties : HasGroup(p) /\ grp[p].pend # 0 /\ IsWinner(grp[p].pend)}}
+    \cup UNION {{[t |-> "deliver", p |-> q, n |-> n] : n \in {n \in CurrentWinnerFor(q) : commits[n].by # q /\ n \notin grp[q].seenC}} :
+                 q \in {q \in Parties : HasGroup(q)}}
+    \cup {[t |-> "retire", p |-> q, n |-> 0] : q \in {q \in Parties : HasGroup(q) /\ \E n \in CurrentWinnerFor(q) : grp[q].leaf \in commits[n].removed}}
+    \cup UNION {{[t |-> "join", p |-> q, n |-> n] : n \in {n \in 1..Len(commits) : IsWinner(n) /\
+                        \E i \in 1..Len(commits[n].added) : kps[commits[n].added[i][1]].owner = q /\ ~kps[commits[n].added[i][1]].used}} :
+                 q \in {q \in Parties : ~HasGroup(q)}}
+    \cup UNION {{[t |-> "dprop", p |-> q, n |-> j] : j \in {j \in 1..Len(props) : props[j].ks = grp[q].ks /\ props[j].by # q /\ j \notin grp[q].cache}} :
+                 q \in {q \in Parties : HasGroup(q)}}
+
+ProgressEnabled == ProgChoices # {}
 
 Progress ==
-    \/ \E n \in 1..Len(commits) : DsEnabled(n) /\ DsChoose(n)
-    \/ \E p \in Parties : HasGroup(p) /\ grp[p].pend # 0 /\ ApplyPending(p)
-    \/ \E q \in Parties : HasGroup(q) /\ \E n \in CurrentWinnerFor(q) : commits[n].by # q /\ n \notin grp[q].seenC /\ DeliverCommit(q, n)
-    \/ \E q \in Parties : HasGroup(q) /\ (\E n \in CurrentWinnerFor(q) : grp[q].leaf \in commits[n].removed) /\ Retire(q)
-    \/ \E q \in Parties : \E n \in 1..Len(commits) : JoinWelcome(q, n)
-    \/ \E q \in Parties : HasGroup(q) /\ \E j \in 1..Len(props) : props[j].ks = grp[q].ks /\ DeliverProposal(q, j)
+    \E c \in {RandomElement(ProgChoices)} :
+        CASE c.t = "ds" -> DsChoose(c.n)
+          [] c.t = "apply" -> ApplyPending(c.p)
+          [] c.t = "deliver" -> DeliverCommit(c.p, c.n)
+          [] c.t = "retire" -> Retire(c.p)
+          [] c.t = "join" -> JoinWelcome(c.p, c.n)
+          [] c.t = "dprop" -> DeliverProposal(c.p, c.n)
 
 ValidByValue(g) ==
     {[kind |-> "add", ref |-> 0, by |-> g.leaf, kp |-> i] : i \in {i \in 1..Len(kps) : ~kps[i].used /\ kps[i].owner \notin Members(g.tree)}}
@@ -63,18 +71,36 @@ ValidOther(g) == {it \in ValidByValue(g) : it.kind \notin {"add", "rem"}}
 
 \* by-value proposals: mostly adds (trees must grow for unmerged leaves and deep paths), some removals,
 \* PSK / GCE where enabled, and a tail of arbitrary (mostly invalid) ones
+\* removal of the right-most other member: shrinks the tree across power-of-two boundaries (trim, hash caches)
+RightmostRem(g) ==
+    LET others == OccupiedLeaves(g.tree) \ {g.leaf} IN
+    IF others = {} THEN {} ELSE {[kind |-> "rem", ref |-> 0, by |-> g.leaf, target |-> CHOOSE l \in others : \A m \in others : m <= l]}
+
 PickItem(g) ==
     LET r == RandomElement(1..(20 + Z)) IN
-    IF r <= 10 /\ ValidAdds(g) # {} THEN RandomElement(ValidAdds(g))
+    IF r <= 9 /\ ValidAdds(g) # {} THEN RandomElement(ValidAdds(g))
+    ELSE IF r <= 11 /\ RightmostRem(g) # {} THEN RandomElement(RightmostRem(g))
     ELSE IF r <= 13 /\ ValidRems(g) # {} THEN RandomElement(ValidRems(g))
     ELSE IF r <= 17 /\ ValidOther(g) # {} THEN RandomElement(ValidOther(g))
     ELSE IF r <= 18 THEN RandomElement(ByValueItems(g))
     ELSE IF ValidByValue(g) # {} THEN RandomElement(ValidByValue(g)) ELSE RandomElement(ByValueItems(g))
-PickByVal(g) == LET k == RandomElement(0..(ByValueMax + Z)) IN [i \in 1..k |-> PickItem(g)]
+
+\* a run of removals from the right edge (two or three members of the right half in one commit)
+ShrinkItems(g) ==
+    LET others == OccupiedLeaves(g.tree) \ {g.leaf}
+        top == {l \in others : Cardinality({m \in others : m > l}) < 3}
+    IN SetToSortedSeq(top)
+PickShrink(g) == LET s == ShrinkItems(g) IN [i \in 1..Len(s) |-> [kind |-> "rem", ref |-> 0, by |-> g.leaf, target |-> s[Len(s) + 1 - i]]]
+PickByVal(g) ==
+    IF ByValueMax >= 3 /\ RandomElement(1..(12 + Z)) = 1 /\ Cardinality(OccupiedLeaves(g.tree)) >= 4
+    THEN PickShrink(g)
+    ELSE LET k == RandomElement(0..(ByValueMax + Z)) IN [i \in 1..k |-> PickItem(g)]
 
 CONSTANTS WPropose, WCommit, WApp, WStore      \* category weights (percent) of non-progress steps
 
 Mem == {p \in Parties : HasGroup(p)}
+\* one member drawn at random (re-drawn at every use): successors are computed for one actor only
+OneMem == IF Mem = {} THEN {} ELSE {RandomElement({p \in Mem : Z = 0})}
 
 Filler ==   \* always enabled once somebody is a member: a failing or stale call (state-preservation checks)
     \/ \E p \in {RandomElement({p \in Parties : HasGroup(p) /\ Z = 0})} : ApplyPending(p)
@@ -94,7 +120,7 @@ SimPropose ==
     \/ \E p \in Mem : RandomElement(1..(4 + Z)) = 1 /\ ProposeReinit(p)
 
 SimCommit ==
-    \/ \E p \in Mem : \E bv \in {PickByVal(grp[p])} :
+    \/ \E p \in OneMem : \E bv \in {PickByVal(grp[p])} :
             \E dt \in {RandomElement({b \in BOOLEAN : Z = 0 /\ (b => ("detached" \in Features /\ RandomElement(1..(3 + Z)) = 1))})} : Commit(p, bv, dt)
     \/ \E p \in Mem : ClearPending(p)
     \/ \E p \in Mem : \E n \in det[p] : ApplyDetached(p, n)
@@ -119,7 +145,7 @@ SimMisc ==
 
 SimOther ==
     \E c \in {RandomElement(1..(100 + Z))} :
-        IF c <= WPropose THEN SimPropose
+        IF c <= WPropose THEN (IF ENABLED SimPropose THEN SimPropose ELSE SimMisc)
         ELSE IF c <= WPropose + WCommit THEN SimCommit
         ELSE IF c <= WPropose + WCommit + WApp /\ "apps" \in Features THEN SimApp
         ELSE IF c <= WPropose + WCommit + WApp + WStore /\ "storage" \in Features THEN SimStore
